@@ -157,6 +157,9 @@ func runC11FD(prop string, seq []c11fdEvent) (sig, msg string, flagged, restored
 			if prop != "C11" {
 				if !ok {
 					swept++
+					if prop == "C02" && !refFlag {
+						return "view-of-live-owner-lost", desc() + ": nB is alive, heard from and not flagged, yet the sweep threw its whole state away", flagged, restored, swept
+					}
 					s, m := foldOK(i)
 					return s, m, flagged, restored, swept
 				}
